@@ -260,6 +260,12 @@ func TestC52Index(t *testing.T) {
 		defer f.Close()
 		s := f.NewSession("", "", "")
 		col := fmt.Sprintf("g %s NOT NULL SRID %d", coltype, srid)
+		// with a column the queries do not read, the column pruning gives the table a projection,
+		// and only then does the in-memory spatial lookup apply its bounding-box filter
+		padCol := rapid.IntRange(0, 3).Draw(rt, "padcol") > 0
+		if padCol {
+			col += ", pad INT"
+		}
 		s.MustExec(rt.Fatalf,
 			"CREATE TABLE t (id INT PRIMARY KEY, "+col+", SPATIAL KEY sk (g))",
 			"CREATE TABLE tw (id INT PRIMARY KEY, "+col+")")
@@ -285,7 +291,11 @@ func TestC52Index(t *testing.T) {
 			for i := 0; i < n; i++ {
 				g := genRow()
 				rows[nextID] = g
-				vs = append(vs, fmt.Sprintf("(%d, ST_GeomFromText('%s', %d))", nextID, g.WKT(), srid))
+				if padCol {
+					vs = append(vs, fmt.Sprintf("(%d, ST_GeomFromText('%s', %d), %d)", nextID, g.WKT(), srid, nextID%3))
+				} else {
+					vs = append(vs, fmt.Sprintf("(%d, ST_GeomFromText('%s', %d))", nextID, g.WKT(), srid))
+				}
 				nextID++
 			}
 			both("INSERT INTO @T VALUES " + strings.Join(vs, ", "))
@@ -400,5 +410,8 @@ func TestC52Index(t *testing.T) {
 		}
 		st.Class(fmt.Sprintf("srid:%d", srid))
 		st.Class("column:" + coltype)
+		if padCol {
+			st.Class("table:with-unread-column")
+		}
 	})
 }
